@@ -3412,6 +3412,10 @@ class ISLaEmitter(IslaLanguageListener.IslaLanguageListener):
         final_bound_variable = self.vars_for_xpath_expressions[xpath_expr]
         del self.vars_for_xpath_expressions[xpath_expr]
 
+        if final_bound_variable not in formula.free_variables():
+            # All atoms using this XPath expression were simplified away.
+            return self.close_over_xpath_expressions(formula)
+
         # Either, the first XPath segment consists of multiple elements, or we have
         # more than one segment.
         assert len(xpath_expr) > 1 or len(xpath_expr[0]) > 1
